@@ -38,7 +38,7 @@ def run_case(case, ctx):
 	mode = case['mode']
 	S = tuple(case['spec'])
 	E = S if case['explicit'] and mode != 'sig' else None
-	genomes = H.make_genomes(case['seed'], n, nanc=case['nanc'], plant=tuple({'ATGAC', S[1]}), dup_prob=case['dup_prob'])
+	genomes = H.make_genomes(case['seed'], n, nanc=case['nanc'], plant=tuple(sorted({'ATGAC', S[1]})), dup_prob=case['dup_prob'])
 	d = ctx.fresh_dir('c17')
 	try:
 		labels_in = case['labels']
